@@ -1313,6 +1313,59 @@ theorem summarize_eq_none (a : Option Bool) (vals : List (Option Rat)) :
     rw [h v hv]
     rfl
 
+
+/-! ## the median is the middle of the values put in order -/
+
+theorem insertQ_perm (x : Rat) (l : List Rat) : (insertQ x l).Perm (x :: l) := by
+  induction l with
+  | nil => exact List.Perm.refl _
+  | cons y ys ih =>
+    unfold insertQ
+    split
+    · exact List.Perm.refl _
+    · exact (List.Perm.cons y ih).trans (List.Perm.swap x y ys)
+
+theorem sortQ_perm (l : List Rat) : (sortQ l).Perm l := by
+  induction l with
+  | nil => exact List.Perm.refl _
+  | cons x xs ih => exact (insertQ_perm x (sortQ xs)).trans (List.Perm.cons x ih)
+
+theorem insertQ_sorted (x : Rat) (l : List Rat) (h : l.Pairwise (· ≤ ·)) : (insertQ x l).Pairwise (· ≤ ·) := by
+  induction l with
+  | nil => simp [insertQ]
+  | cons y ys ih =>
+    obtain ⟨hy, hys⟩ := List.pairwise_cons.mp h
+    unfold insertQ
+    split
+    · rename_i hxy
+      exact List.pairwise_cons.mpr ⟨fun z hz => by
+        rcases List.mem_cons.mp hz with rfl | hz'
+        · exact hxy
+        · exact le_trans hxy (hy z hz'), h⟩
+    · rename_i hxy
+      have hyx : y ≤ x := le_of_lt (lt_of_not_ge hxy)
+      exact List.pairwise_cons.mpr ⟨fun z hz => by
+        have := (insertQ_perm x ys).subset hz
+        rcases List.mem_cons.mp this with rfl | hz'
+        · exact hyx
+        · exact hy z hz', ih hys⟩
+
+theorem sortQ_sorted (l : List Rat) : (sortQ l).Pairwise (· ≤ ·) := by
+  induction l with
+  | nil => simp [sortQ]
+  | cons x xs ih => exact insertQ_sorted x (sortQ xs) ih
+
+/-- `median l`: put the values in non-decreasing order (a permutation `s` of `l`); the middle one
+    for an odd count, the mean of the two middle ones for an even count, missing for none -/
+theorem median_is_middle (l : List Rat) :
+    ∃ s : List Rat, s.Perm l ∧ s.Pairwise (· ≤ ·) ∧
+      median l = (if s.length = 0 then none
+                  else if s.length % 2 = 1 then s[s.length / 2]?
+                  else match s[s.length / 2 - 1]?, s[s.length / 2]? with
+                    | some a, some b => some ((a + b) / 2)
+                    | _, _ => none) :=
+  ⟨sortQ l, sortQ_perm l, sortQ_sorted l, rfl⟩
+
 /-! ## the whole reading step on biallelic files -/
 
 theorem readVcf_biallelic (samples : List String) (tags : List PedTag) (recs : List Rec) (o : ReadOpts)
